@@ -34,7 +34,59 @@ def build(spec):
         return frozenset(build(x) for x in spec[1])
     if t == 'd':
         return dict((build(k), build(v)) for k, v in spec[1])
+    if t == 'H':
+        return hostile(spec[1])
     raise ValueError('bad spec %r' % (spec,))
+
+
+class BadHash(object):
+    def __hash__(self):
+        raise TypeError('unhashable on purpose')
+
+
+class BadRepr(object):
+    def __repr__(self):
+        raise ValueError('repr fails on purpose')
+    __str__ = __repr__
+
+
+class BadEq(object):
+    def __hash__(self):
+        return 7
+    def __eq__(self, other):
+        raise RuntimeError('eq fails on purpose')
+    def __repr__(self):
+        return 'BadEq()'
+
+
+class BadReduce(object):
+    def __reduce_ex__(self, proto):
+        raise TypeError('cannot pickle on purpose')
+    def __repr__(self):
+        return 'BadReduce()'
+    def __eq__(self, other):
+        return isinstance(other, BadReduce)
+    def __hash__(self):
+        return 11
+
+
+def hostile(kind):
+    if kind == 'gen':
+        return (i for i in range(2))
+    if kind == 'lam':
+        return lambda: 1
+    if kind == 'badhash':
+        return BadHash()
+    if kind == 'badrepr':
+        return BadRepr()
+    if kind == 'badeq':
+        return BadEq()
+    if kind == 'badreduce':
+        return BadReduce()
+    raise ValueError(kind)
+
+
+HOSTILE_KINDS = ['gen', 'lam', 'badhash', 'badrepr', 'badreduce']   # 'badeq' (raising __eq__) is outside the statement: neither unhashable nor unencodable
 
 
 def has_float(spec):
@@ -89,7 +141,7 @@ def canon(v):
         return ('S',) + tuple(sorted((canon(x) for x in v), key=repr))
     if isinstance(v, dict):
         return ('d',) + tuple(sorted(((canon(k), canon(x)) for k, x in v.items()), key=repr))
-    return ('o', type(v).__name__, id(v))
+    return ('o', type(v).__name__)
 
 
 # ---- strategies ------------------------------------------------------------
